@@ -337,6 +337,13 @@ func (e *Engine) computePrivate(root *ssa.Function) map[*ssa.Alloc]bool {
 					}
 				}
 			case *ssa.DebugRef:
+			case *ssa.Store:
+				// `f := func(...) {...}`: the closure is kept in a local variable; fine when that variable is only ever
+				// loaded to be called
+				al, ok := u.Addr.(*ssa.Alloc)
+				if !ok || u.Val != mc || !localOnlyCalled(al) {
+					return true
+				}
 			default:
 				return true
 			}
@@ -453,6 +460,48 @@ func (e *Engine) computePrivate(root *ssa.Function) map[*ssa.Alloc]bool {
 		}
 	}
 	return priv
+}
+
+// localOnlyCalled: every use of the local variable al is a store into it, or a load whose value is only used as the
+// callee of a call/defer (never passed on, stored elsewhere or returned).
+func localOnlyCalled(al *ssa.Alloc) bool {
+	refs := al.Referrers()
+	if refs == nil {
+		return false
+	}
+	for _, r := range *refs {
+		switch u := r.(type) {
+		case *ssa.Store:
+			if u.Addr != al {
+				return false
+			}
+		case *ssa.DebugRef:
+		case *ssa.UnOp:
+			lrefs := u.Referrers()
+			if lrefs == nil {
+				return false
+			}
+			for _, lr := range *lrefs {
+				switch c := lr.(type) {
+				case *ssa.DebugRef:
+				case ssa.CallInstruction:
+					if _, isGo := c.(*ssa.Go); isGo || c.Common().Value != u {
+						return false
+					}
+					for _, a := range c.Common().Args {
+						if a == u {
+							return false
+						}
+					}
+				default:
+					return false
+				}
+			}
+		default:
+			return false
+		}
+	}
+	return true
 }
 
 // pointerLike: values of this type can carry a pointer.
